@@ -71,7 +71,7 @@ func vtTokenize(src []byte, normalize bool) (words []string, lines []int, notes 
 	}
 	for _, t := range doc.Tokens {
 		words = append(words, d.getWord(t.ID))
-		lines = append(lines, t.Line)
+		lines = append(lines, int(t.Line))
 	}
 	for _, m := range doc.Matches {
 		if m.Name != "Copyright" || m.MatchType != "Copyright" || m.Confidence != 1.0 || m.StartLine != m.EndLine {
